@@ -47,19 +47,31 @@ Proof.
              end; try congruence; try reflexivity; inversion Hl; reflexivity.
 Qed.
 
-(* the message as the tracker sees it: every key but _source reads as in the items *)
+(* the keys the tracker reads from a message: the sent (non-underscore) headers plus _udn and _timestamp.
+   The decoder's other bookkeeping keys (_host, _port, _remote_addr, _local_addr, _location_original, _source)
+   are never consulted by the device tracker's decisions. *)
+Definition tracker_reads (lk : pystr) : bool :=
+  negb (is_meta lk) || str_eqb lk k_udn || str_eqb lk k_timestamp.
+
+Lemma tracker_reads_not_source lk : tracker_reads lk = true -> str_eqb k_source lk = false.
+Proof.
+  intros H. destruct (str_eqb_spec k_source lk) as [<-|]; [|reflexivity]. vm_compute in H. discriminate.
+Qed.
+
+(* the message as the tracker sees it: every key it reads is as in the items *)
 Definition reads_as (h : hdrs) (items : list (pystr * hval)) : Prop :=
-  forall lk, str_eqb k_source lk = false -> hget h lk = item_get items lk.
+  forall lk, tracker_reads lk = true -> hget h lk = item_get items lk.
 
 Lemma sourced_reads items src : items_ok items ->
   Inv str_eqb lower (with_source (mk_hdrs items) src) /\ reads_as (with_source (mk_hdrs items) src) items.
 Proof.
   intros H. destruct (mk_hdrs_ok _ H) as [Hi Hg].
   split; [apply (with_source_get _ src k_source Hi)|].
-  intros lk Hne. destruct (with_source_get _ src lk Hi) as [_ E]. rewrite E, Hne. apply Hg.
+  intros lk Hne. apply tracker_reads_not_source in Hne.
+  destruct (with_source_get _ src lk Hi) as [_ E]. rewrite E, Hne. apply Hg.
 Qed.
 
-Lemma reads_hstr h items lk : reads_as h items -> str_eqb k_source lk = false ->
+Lemma reads_hstr h items lk : reads_as h items -> tracker_reads lk = true ->
   hstr h lk = item_str items lk.
 Proof. intros R Hne. unfold hstr, item_str. now rewrite (R lk Hne). Qed.
 
